@@ -98,15 +98,17 @@ Definition w_search_from_end :=
   mkCall FSearch 0 0 P0 (SList [1;2]) (SList [1;2;3]) None None false None None None TDefault CAbsent true BAdd None 1 false TrNum.
 Definition w_search_empty :=
   mkCall FSearch 0 0 P0 (SList []) (SList [1;2;3]) None None false (Some 1%nat) None None TDefault CAbsent false BAdd None 1 false TrNum.
-(* (mismatch '(1 2 3 4) '(1 2 9 4) :from-end t) => 2; (mismatch '(1 2) '(1 2) :start1 2) => error *)
+(* (mismatch '(1 2 3 4) '(1 2 9 4) :from-end t) => 2; (mismatch '(1 2) '(1 2) :start1 2) => 2 (repaired: was an error) *)
 Definition w_mismatch_from_end :=
   mkCall FMismatch 0 0 P0 (SList [1;2;3;4]) (SList [1;2;9;4]) None None false None None None TDefault CAbsent true BAdd None 1 false TrNum.
 Definition w_mismatch_start :=
   mkCall FMismatch 0 0 P0 (SList [1;2]) (SList [1;2]) (Some 2%nat) None false None None None TDefault CAbsent false BAdd None 1 false TrNum.
-(* (replace (list 1 2 3) '(9 9) :end1 3) => error; (fill (list 1 2 3) 0 :end 3) => error *)
+(* (replace (list 1 2 3) '(9 9) :end1 3) => (9 9 3) (repaired: was an error); (fill (list 1 2 3) 0 :end 3) => error *)
 Definition w_replace_end :=
   mkCall FReplace 0 0 P0 (SList [1;2;3]) (SList [9;9]) None (Some 3%nat) false None None None TDefault CAbsent false BAdd None 1 false TrNum.
 Definition w_fill_end := mk FFill 0 0 P0 (SList [1;2;3]) SNil None (Some 3%nat) None TDefault CAbsent false.
+(* (fill (list 1 2 3) 0 :start 3) => error *)
+Definition w_fill_start := mk FFill 0 0 P0 (SList [1;2;3]) SNil (Some 3%nat) None None TDefault CAbsent false.
 (* (subseq nil 0) => nil, (every (lambda (x) (eql 0 x)) nil) => t, (subsetp nil '(1)) => t (repaired: were type-errors) *)
 Definition w_subseq_nil := mk FSubseq 0 0 P0 SNil SNil (Some 0%nat) None None TDefault CAbsent false.
 Definition w_every_nil := mk FEvery 0 0 P0 SNil SNil None None None TDefault CAbsent false.
@@ -135,8 +137,8 @@ Definition w_find_if_not := mk FFindIfNot 0 0 P0 (SVec [0;1;2]) SNil None None N
 
 Definition refutation_witnesses : list call :=
   [w_remove_if_not; w_find_if_not; w_test_not; w_subst_test_not; w_setdiff_test_not; w_subst_count; w_subst_count0; w_subst_count_neg;
-   w_assoc_order; w_mismatch_from_end; w_mismatch_start;
-   w_replace_end; w_fill_end;
+   w_assoc_order; w_mismatch_from_end;
+   w_fill_end; w_fill_start;
    w_merge_tie; w_some_value; w_reduce_empty; w_reduce_start; w_dups_ne; w_dups_from_end].
 
 Lemma all_refuted : forallb refutes refutation_witnesses = true.
@@ -154,7 +156,8 @@ Proof. vm_compute. split; reflexivity. Qed.
 Definition repaired_witnesses : list (call * res) :=
   [ (w_count_utf8, RInt 2); (w_count_nil, RSeq [2]); (w_assoc_nil, RNil);
     (w_subseq_nil, RSeq []); (w_every_nil, RTrue); (w_subsetp_nil, RTrue); (w_reduce_nil, RElt 5);
-    (w_map_nil, RSeq []); (w_merge_nil, RSeq [1]); (w_search_from_end, RInt 0); (w_search_empty, RInt 1) ].
+    (w_map_nil, RSeq []); (w_merge_nil, RSeq [1]); (w_search_from_end, RInt 0); (w_search_empty, RInt 1);
+    (w_mismatch_start, RInt 2); (w_replace_end, RSeq [9;9;3]) ].
 Definition repaired_ok (cr : call * res) : bool :=
   in_domain (fst cr) &&
   match m_call (fst cr), s_call (fst cr) with
@@ -259,9 +262,9 @@ Lemma substitute_count_refuted : refutes w_subst_count = true /\ refutes w_subst
 Proof. vm_compute. repeat split; reflexivity. Qed.
 Lemma assoc_refuted : refutes w_assoc_order = true.
 Proof. vm_compute. reflexivity. Qed.
-Lemma mismatch_refuted : refutes w_mismatch_from_end = true /\ refutes w_mismatch_start = true.
-Proof. vm_compute. split; reflexivity. Qed.
-Lemma replace_fill_end_refuted : refutes w_replace_end = true /\ refutes w_fill_end = true.
+Lemma mismatch_refuted : refutes w_mismatch_from_end = true.
+Proof. vm_compute. reflexivity. Qed.
+Lemma fill_end_refuted : refutes w_fill_end = true /\ refutes w_fill_start = true.
 Proof. vm_compute. split; reflexivity. Qed.
 Lemma merge_tie_refuted : refutes w_merge_tie = true.
 Proof. vm_compute. reflexivity. Qed.
